@@ -222,6 +222,28 @@ def b_int(E, st, args, kw):
     h = R.specs.get("spec.int_of_str")
     if isinstance(v, VStr) and h:
         return h(E, st, args, kw)
+    if isinstance(v, VNone):
+        return [E.raise_(st, "builtins.TypeError")]
+    if isinstance(v, VOpt):
+        out = []
+        for s2, isnone in E.branch(st, v.isnone):
+            if isnone:
+                out.append(E.raise_(s2, "builtins.TypeError"))
+            else:
+                out.extend(b_int(E, s2, [v.val], kw))
+        return out
+    if isinstance(v, VOpaque) and h:
+        out = []
+        for s2, isint in E.branch(st, is_int(v.e)):
+            if isint:
+                out.append(Res(s2, VInt(unbox_int(v.e))))
+                continue
+            for s3, isstr in E.branch(s2, is_str(v.e)):
+                if isstr:
+                    out.extend(h(E, s3, [VStr(unbox_str(v.e))], kw))
+                else:
+                    out.append(E.raise_(s3, "builtins.TypeError"))
+        return out
     raise Unsupported("int(%r)" % (v,))
 
 
